@@ -156,6 +156,11 @@ def domain(tier):
               p.LogicalOr((p.Comparison(trees.X, "==", 1), p.Comparison(p.Quotient(1, 0), "==", 1))),
               p.LogicalAnd((p.Comparison(trees.X, "==", 1), p.Comparison(p.Quotient(1, 0), "==", 1))),
               p.CommonSubexpression(p.Sum((trees.X, 1))),
+              # wrappers of every scope and with prefixes: no scope may make a value outlive the evaluation it was computed in
+              p.CommonSubexpression(p.Sum((trees.X, 1)), None, p.cse_scope.GLOBAL), p.CommonSubexpression(p.Product((trees.X, trees.Y)), "pre", p.cse_scope.EXPRESSION),
+              p.Sum((p.CommonSubexpression(p.Product((trees.X, trees.Y)), "g", p.cse_scope.GLOBAL), p.CommonSubexpression(p.Product((trees.X, trees.Y)), "g", p.cse_scope.GLOBAL), 1)),
+              p.Product((p.CommonSubexpression(p.Quotient(trees.X, trees.Y), None, p.cse_scope.GLOBAL), p.CommonSubexpression(p.Sum((trees.X, trees.Y)), None, p.cse_scope.EXPRESSION))),
+              p.CommonSubexpression(p.CommonSubexpression(p.Power(trees.X, 2), "in", p.cse_scope.GLOBAL), "out", p.cse_scope.EVALUATION),
               p.Sum((p.CommonSubexpression(p.Product((trees.X, trees.Y))), p.CommonSubexpression(p.Product((trees.X, trees.Y))))),
               p.Call(p.Variable("f"), (trees.X, p.Sum((trees.Y, 1)))),
               p.Subscript(p.Variable("a"), p.Sum((trees.X, 0))), p.Lookup(p.Variable("o"), "real"),
@@ -313,7 +318,7 @@ def cse_once(tier):
     from pymbolic.mapper.evaluator import CachedEvaluationMapper, EvaluationMapper
     b = BoundedRun("cse-once", rule="call-counting function inside CSE wrappers; sequences of <=3 evaluations on one "
                    "instance; count of child evaluations per distinct wrapper must be 1; non-trivial = history with a repeated wrapper",
-                   bound="histories <= 3, 4 wrapper shapes", functions=["CSECachingMapperMixin.map_common_subexpression"])
+                   bound="histories <= 3, 8 wrapper shapes (incl. a child evaluating to None, the three scopes)", functions=["CSECachingMapperMixin.map_common_subexpression"])
     calls = []
 
     def g(v):
@@ -323,16 +328,25 @@ def cse_once(tier):
     w1 = p.CommonSubexpression(p.Call(p.Variable("g"), (x,)))
     w2 = p.CommonSubexpression(p.Call(p.Variable("g"), (p.Sum((x, 1)),)), "pre")
     w1b = p.CommonSubexpression(p.Call(p.Variable("g"), (x,)))
-    exprs = [p.Sum((w1, w1)), p.Product((w1, w2, w1b)), p.Sum((w2, p.Product((w2, w1)))), w1]
+    # a wrapper whose child evaluates to None (a call made for its effect), consumed by another call; wrappers of the other scopes
+    def gn(v):
+        calls.append(("none", v))
+        return None
+    w3 = p.CommonSubexpression(p.Call(p.Variable("gn"), (x,)))
+    w4 = p.CommonSubexpression(p.Call(p.Variable("g"), (p.Sum((x, 2)),)), None, p.cse_scope.GLOBAL)
+    w5 = p.CommonSubexpression(p.Call(p.Variable("g"), (p.Sum((x, 3)),)), "e", p.cse_scope.EXPRESSION)
+    k2 = p.Variable("k2")
+    exprs = [p.Sum((w1, w1)), p.Product((w1, w2, w1b)), p.Sum((w2, p.Product((w2, w1)))), w1, p.Call(k2, (w3, w3)), p.Sum((p.Call(k2, (w3, w1)), p.Call(k2, (w3, 1)))),
+             p.Sum((w4, w4, w5)), p.Product((w5, p.Sum((w5, w4))))]
     for cls in (EvaluationMapper, CachedEvaluationMapper):
         for hist in itertools.chain(itertools.product(exprs, repeat=1), itertools.product(exprs, repeat=2),
                                     itertools.product(exprs[:3], repeat=3)):
             del calls[:]
-            m = cls({"x": 3, "g": g})
+            m = cls({"x": 3, "g": g, "gn": gn, "k2": lambda a_, b_: 7})
             vals = []
             for e in hist:
                 vals.append(m(e))
-            expect = [den(e, {"x": 3, "g": lambda v: v * 2}) for e in hist]
+            expect = [den(e, {"x": 3, "g": lambda v: v * 2, "gn": lambda v: None, "k2": lambda a_, b_: 7}) for e in hist]
             distinct_args = set(calls)
             b.case((cls.__name__, tuple(repr(h) for h in hist)), nontrivial=len(hist) > 1,
                    sample=dict(mapper=cls.__name__, history=[repr(h) for h in hist]))
